@@ -493,7 +493,10 @@ def _process_worker(
             r = call_item()
         except BaseException as e:
             exc = _ExceptionWithTraceback(e)
-            result_queue.put(_ResultItem(call_item.work_id, exception=exc))
+            # The exception raised by the task might not be picklable: send it
+            # back safely so that a failure to serialize it is reported in
+            # the future of this task instead of killing the worker.
+            _sendback_result(result_queue, call_item.work_id, exception=exc)
         else:
             _sendback_result(result_queue, call_item.work_id, result=r)
             del r
